@@ -285,3 +285,78 @@ Proof.
     rewrite Forall_forall in Bt. apply (Bt (g, tY) Hin).
   - injection Hin as <- <-. destruct Aph as (rest & E). injection E as -> _. exact Logic.I.
 Qed.
+
+(* ------------------------------------------------------------------ the two counters *)
+Definition owner_pc (s : sstate) : option spc :=
+  match ss_lock s with
+  | Some p => match nth_error (ss_procs s) p with Some pr => Some (p_pc pr) | None => None end
+  | None => None end.
+
+Record CInv (s : sstate) : Prop := {
+  c_cnt : ss_cnt s + (match owner_pc s with Some (PW2 _ _) => 1 | _ => 0 end) = length (ss_texts s);
+  c_below : forall i, i < ss_wf s -> stored (ss_index s) i;
+  c_at : match owner_pc s with
+         | Some (PW2 g _) | Some (PW3 g _) => ~ stored (ss_index s) (ss_wf s) \/ ss_wf s = g
+         | Some (PW3L _ _) => True
+         | _ => ~ stored (ss_index s) (ss_wf s) end;
+}.
+
+Lemma seq_incl_length (l : list nat) n : NoDup l -> (forall i, i < n -> In i l) -> n <= length l.
+Proof.
+  intros Nd H. rewrite <- (seq_length n 0). apply NoDup_incl_length; [apply seq_NoDup|]. intros i Hi. apply in_seq in Hi. apply H. lia.
+Qed.
+
+Lemma stored_extend idx g i : stored (extend idx g) i <-> stored idx i.
+Proof. unfold stored. rewrite idx_get_extend. reflexivity. Qed.
+Lemma stored_set idx g e i : g < length idx -> (stored (set_nth g (Some e) idx) i <-> i = g \/ stored idx i).
+Proof.
+  intros H. unfold stored. rewrite idx_get_set by auto. destruct (i =? g) eqn:E.
+  - apply Nat.eqb_eq in E. subst. split; eauto.
+  - apply Nat.eqb_neq in E. split; [auto | intros [?|?]; [contradiction | auto]].
+Qed.
+
+Lemma cinv_step s p s' : AInv s -> BInv s -> CInv s -> sstep s p = Some s' -> CInv s'.
+Proof.
+  intros AI BI [Cc Cb Ca] H. destruct (sstep_procs s p s' H) as (pr & N & _).
+  pose proof (a_lock _ AI p pr N) as Alp.
+  assert (Own : locked_pc (p_pc pr) = true -> owner_pc s = Some (p_pc pr)).
+  { intros L. unfold owner_pc. rewrite (proj1 Alp L), N. reflexivity. }
+  assert (Oth : forall pr' lk, locked_pc (p_pc pr) = false -> lk = ss_lock s ->
+            match lk with Some q => match nth_error (set_nth p pr' (ss_procs s)) q with Some x => Some (p_pc x) | None => None end | None => None end = owner_pc s).
+  { intros pr' lk L ->. unfold owner_pc. destruct (ss_lock s) as [q|] eqn:Lk; auto.
+    assert (q <> p) by (intros ->; apply (proj2 (a_lock _ AI p pr N)) in Lk; congruence). rewrite nth_error_set_nth_neq by auto. reflexivity. }
+  assert (Own' : forall pr', match nth_error (set_nth p pr' (ss_procs s)) p with Some x => Some (p_pc x) | None => None end = Some (p_pc pr')).
+  { intros pr'. rewrite (nth_error_set_nth_eq _ _ _ _ N). reflexivity. }
+  sstep_cases H N; unfold lock_free_for, upd_proc, finish in *; simpl in *.
+  all: simpl in Own, Oth.
+  all: try (assert (Lk : ss_lock s = Some p) by (apply Alp; reflexivity)).
+  all: try (rewrite Own in Cc, Ca by reflexivity).
+  all: try (match goal with Hb : match ss_lock _ with _ => _ end = true |- _ =>
+              unfold owner_pc in Cc, Ca; destruct (ss_lock s) eqn:Lk0; [discriminate Hb|] end).
+  all: constructor; unfold owner_pc; simpl; rewrite ?Lk, ?Own', ?Oth by (reflexivity || auto); simpl in *; auto.
+  - intros i Hi. apply stored_extend. auto.
+  - rewrite stored_extend. exact Ca.
+  - rewrite app_length. simpl. lia.
+  - intros i Hi. apply stored_set; [apply extend_length|]. right. apply stored_extend. auto.
+  - destruct (Nat.eq_dec (ss_wf s) g) as [E|E]; [right; exact E | left]. intros St.
+    destruct (proj1 (stored_set _ _ _ _ (extend_length _ _)) St) as [?|St2]; [contradiction|]. exact (Ca (proj1 (stored_extend _ _ _) St2)).
+  - lia.
+  - (* W3 with id = waiting_for *)
+    intros i Hi. destruct (Nat.eq_dec i (ss_wf s)) as [->|Hne]; [|apply Cb; lia].
+    match goal with Hb : (_ =? _) = true |- _ => apply Nat.eqb_eq in Hb; rewrite <- Hb end.
+    apply (b_idx _ BI). apply in_map_iff. exists (g, t). split; auto. eapply (b_wpc _ BI); [exact N|].
+    match goal with Hp : p_pc _ = _ |- _ => rewrite Hp end. reflexivity.
+  - match goal with Hb : (_ =? _) = false |- _ => apply Nat.eqb_neq in Hb end. destruct Ca as [Ca|Ca]; [exact Ca | congruence].
+  - rewrite N. simpl. match goal with Hp : p_pc _ = _ |- _ => rewrite Hp end. rewrite Nat.add_0_r in Cc |- *. exact Cc.
+  - match goal with Hb : andb _ _ = true |- _ => apply andb_true_iff in Hb; destruct Hb as [_ Hst] end.
+    intros i Hi. destruct (Nat.eq_dec i (ss_wf s)) as [->|Hne]; [|apply Cb; lia].
+    unfold stored. destruct (idx_get (ss_index s) (ss_wf s)); [eauto | discriminate].
+  - rewrite N. simpl. match goal with Hp : p_pc _ = _ |- _ => rewrite Hp end. exact Logic.I.
+  - (* the loop stops exactly at the first identifier that is not stored *)
+    match goal with Hb : andb _ _ = false |- _ => apply andb_false_iff in Hb; destruct Hb as [Hlt|Hst] end.
+    + apply Nat.ltb_ge in Hlt. intros St.
+      assert (Hle : S (ss_wf s) <= length (map fst (ss_texts s))).
+      { apply seq_incl_length; [apply (b_nd _ BI)|]. intros i Hi. apply (b_idx _ BI). destruct (Nat.eq_dec i (ss_wf s)) as [->|Hne]; [exact St | apply Cb; lia]. }
+      rewrite map_length in Hle. lia.
+    + intros (e & He). rewrite He in Hst. discriminate.
+Qed.
